@@ -124,6 +124,7 @@ fn alphabet() -> Vec<Op> {
 }
 
 fn judge(h: &[Op], a: &mut Acc, exhaustive: bool) {
+    tick();
     for nodup in [false, true] {
         let (viol, nt) = match std::panic::catch_unwind(|| run_history(h, nodup)) {
             Ok(r) => r,
@@ -223,7 +224,7 @@ pub fn run(shard: &Shard) -> i32 {
     let k = alpha.len();
     let mut complete = true;
     let mut prefix_idx = 0u64;
-    'ex: for a0 in 0..k {
+    'ex: for a0 in 0..(if shard.only_case.is_some() { 0 } else { k }) {
         for a1 in 0..k {
             prefix_idx += 1;
             if prefix_idx % shard.n != shard.idx { continue; }
